@@ -171,6 +171,18 @@ def catalogue(rng, target, others, schemas):
         if k and donors.get(k):
             d = gen.pick(rng, donors[k])
             ops.append(('but-other', lambda a=a, d=d: ('but-other', a.name, d, t.but(**{a.name: d}))))
+    # sequence-valued fields (set members, call arguments, properties of a specification): shorter, longer, reordered
+    for a in fields:
+        cur = getattr(t, a.name)
+        if isinstance(cur, tuple) and cur and all(hasattr(type(x), '__attrs_attrs__') for x in cur):
+            variants = [cur[:-1], cur[1:], cur + (cur[0],), cur + (cur[-1],), ()]
+            if len(cur) >= 2:
+                variants.append(tuple(reversed(cur)))
+            k = sort_of(cur[0])
+            if k and donors.get(k):
+                variants.append(cur + (gen.pick(rng, donors[k]),))
+            v = gen.pick(rng, variants)
+            ops.append(('but-seq', lambda a=a, v=v: ('but-other', a.name, v, t.but(**{a.name: v}))))
     if is_expr:
         # copy-with-changes of the stored type alone (what cast() does internally)
         for name in ('BOOL', 'NUMBER', 'STRING', 'PRIMITIVE', 'ARRAY', 'ANY'):
@@ -261,6 +273,12 @@ def run(ctx):
                 if o[1][0] == 'but-other':
                     new = o[1][3]
                     fld = o[1][1]
+                    if new is target:
+                        cur_v = getattr(target, fld)
+                        if isinstance(cur_v, tuple) and (len(cur_v) != len(o[1][2]) or any(x is not y for x, y in zip(cur_v, o[1][2]))):
+                            ctx.violation('but-ignored-change', {'input': text[:300], 'field': fld,
+                                                                 'current_length': len(cur_v), 'new_length': len(o[1][2])}, feats)
+                            return
                     if new is not target:
                         fresh = hplapi.outcome(_fresh_construction, target, fld, o[1][2])
                         if fresh[0] == 'ok' and not (new == fresh[1] and monitors.snapshot(new, with_meta=False) == monitors.snapshot(fresh[1], with_meta=False)):
